@@ -18,7 +18,7 @@ META = dict(
                 'as the code is: for all paths without a dollar key, plus a refutation witness); traversal visits every node exactly once and the reported path looked up from the root returns the node; '
                 'pg.query(enter_selected=True) is sound and complete; canonicalize(flatten(v, False)) = v for every nested value with distinct admissible keys and no dict whose keys are exactly 0..n-1 (any depth, lists and dicts mixed). Tie: every modelled operation is run against value_location.py / hierarchical.py / pg.traverse / pg.query on the same inputs on every run '
                 '(12 case kinds, exact outcome incl. error kind and set iteration order), the Unicode digit table of the model is compared with the interpreter, and the property text is evaluated on the real objects on every case.'),
-    level_note=('Partial: include_intermediate, early-stop traversal, merge_tree and canonicalize on arbitrary path-keyed dicts are modelled and checked by correspondence and oracle only (no theorem yet). '
+    level_note=('Partial: include_intermediate on sets that are not prefix-closed, early-stop traversal, merge_tree and canonicalize on arbitrary path-keyed dicts are modelled and checked by correspondence and oracle only (no theorem yet). '
                 'Not modelled: custom key objects, bool keys, tuples, MISSING_VALUE leaves, pg.Object nodes, regex/where of pg.query, user merge functions, subtree aliasing. '
                 'Trusted: Coq kernel, stdlib DecimalZ, extraction cross-checked by vm_compute, the Python harness (generators, driver, exception canonicalisation), CPython str.isdigit/int/str comparison. '
                 'Open finding: the path key "$" collides with the trie end marker (quirk flag q_dollar).'),
